@@ -339,6 +339,17 @@ fn process_tcp_packet(
         http_flows.remove(&reversed_key);
     }
 
+    // Only the client's SYN opens a flow. A SYN+ACK whose SYN was not seen (or has expired)
+    // would open one with the roles swapped: it never yields a message, and it captures the
+    // packets of a later connection on the same ports as "server" data.
+    // The flow is opened before the packet is filed, so that data carried by the SYN itself
+    // (TCP Fast Open) is handled like any other client data
+    if opens_connection && !http_flows.contains_key(&flow_key) {
+        let tcp_data: TcpData = TcpData { sequence: tcp.get_sequence(), data: Vec::new() };
+        let flow: TcpFlow = TcpFlow::init(src_ip, src_port, dst_ip, dst_port, tcp_data);
+        http_flows.insert(flow_key, flow, Duration::new(60, 0));
+    }
+
     let (tcp_flow, is_client) = {
         if let Some(flow) = http_flows.get_mut(&flow_key) {
             (Some(flow), true)
@@ -360,7 +371,14 @@ fn process_tcp_packet(
         }
 
         if !tcp.payload().is_empty() {
-            let tcp_data = TcpData { sequence: tcp.get_sequence(), data: Vec::from(tcp.payload()) };
+            // A SYN consumes one sequence number: data carried by a SYN or SYN+ACK segment
+            // starts one past the segment's own sequence number
+            let sequence = if flags & pnet::packet::tcp::TcpFlags::SYN != 0 {
+                tcp.get_sequence().wrapping_add(1)
+            } else {
+                tcp.get_sequence()
+            };
+            let tcp_data = TcpData { sequence, data: Vec::from(tcp.payload()) };
 
             if is_client && src_ip == flow.client_ip && src_port == flow.client_port {
                 // Only add data and parse if not already parsed
@@ -436,14 +454,6 @@ fn process_tcp_packet(
                 http_flows.remove(stored_key);
             }
         }
-    } else if opens_connection {
-        // Only the client's SYN opens a flow. A SYN+ACK whose SYN was not seen (or has expired)
-        // would open one with the roles swapped: it never yields a message, and it captures the
-        // packets of a later connection on the same ports as "server" data
-        let tcp_data: TcpData =
-            TcpData { sequence: tcp.get_sequence(), data: Vec::from(tcp.payload()) };
-        let flow: TcpFlow = TcpFlow::init(src_ip, src_port, dst_ip, dst_port, tcp_data);
-        http_flows.insert(flow_key, flow, Duration::new(60, 0));
     }
 
     Ok(observable_http_package)
